@@ -69,9 +69,10 @@ def confirm(pid, which, checks=None, stored=False):
             shutil.copy(os.path.join(d0, "notes.md"), os.path.join(stage, "%s.md" % which))
         src = stage
         old_meta = json.load(open(os.path.join(d0, "meta.json")))
-        ren = {"x": "x"} if old_meta.get("round") == 2 else {}
+        ren = {"x": "x"} if old_meta.get("round", 1) >= 2 else {}
+        os.environ.setdefault("SEED_ROUND", str(old_meta.get("round", 1)))
     head = ensure()
-    meta = {"name": name, "breaks_property": pid, "round": 2 if ren else 1, "source": "independent sub-agent given only the property text and a scratch worktree" + (" (second round: also told which changes had been tried before)" if ren else ""), "repo_head": head, "confirmation": {}}
+    meta = {"name": name, "breaks_property": pid, "round": int(os.environ.get("SEED_ROUND", 2 if ren else 1)), "source": "independent sub-agent given only the property text and a scratch worktree" + (" (later round: also told which changes had been tried before)" if ren else ""), "repo_head": head, "confirmation": {}}
     shutil.copy(os.path.join(src, "%s_demo.rs" % which), os.path.join(SCRATCH, "tests", "seed_demo.rs"))
     ok_clean, out_clean = demo()
     meta["confirmation"]["demo_passes_on_unmodified_tree"] = ok_clean
